@@ -458,7 +458,7 @@ package rib
 //@ ensures[others-kept] othersKept_v4(r.r.Afts, pfx)
 //@ ensures[wf] holderWF(r)
 //@ assigns r.r.Afts.Ipv4Entry, contents(r.r.Afts.Ipv4Entry)
-//@ props C01 C12:safety
+//@ props C01 C07 C12:safety
 
 //@ pred candOnly_v6(C *aft.Afts, k string) = dom(C.Ipv6Entry) == add(emptyset(string), k) && C.Ipv6Entry[k] != nil && dom(C.Ipv4Entry) == emptyset(string) && dom(C.LabelEntry) == emptyset(aft.Afts_LabelEntry_Label_Union) && dom(C.NextHopGroup) == emptyset(uint64) && dom(C.NextHop) == emptyset(uint64)
 //@ pred othersKept_v6(A *aft.Afts, k string) = forall j: string :: j != k ==> ((j in dom(A.Ipv6Entry)) <==> (j in old(dom(A.Ipv6Entry)))) && (j in dom(A.Ipv6Entry) ==> A.Ipv6Entry[j] == old(A.Ipv6Entry[j]))
@@ -474,7 +474,7 @@ package rib
 //@ ensures[others-kept] othersKept_v6(r.r.Afts, pfx)
 //@ ensures[wf] holderWF(r)
 //@ assigns r.r.Afts.Ipv6Entry, contents(r.r.Afts.Ipv6Entry)
-//@ props C01 C12:safety
+//@ props C01 C07 C12:safety
 
 //@ pred candOnly_mpls(C *aft.Afts, k aft.Afts_LabelEntry_Label_Union) = dom(C.LabelEntry) == add(emptyset(aft.Afts_LabelEntry_Label_Union), k) && C.LabelEntry[k] != nil && dom(C.Ipv4Entry) == emptyset(string) && dom(C.Ipv6Entry) == emptyset(string) && dom(C.NextHopGroup) == emptyset(uint64) && dom(C.NextHop) == emptyset(uint64)
 //@ pred othersKept_mpls(A *aft.Afts, k aft.Afts_LabelEntry_Label_Union) = forall j: aft.Afts_LabelEntry_Label_Union :: j != k ==> ((j in dom(A.LabelEntry)) <==> (j in old(dom(A.LabelEntry)))) && (j in dom(A.LabelEntry) ==> A.LabelEntry[j] == old(A.LabelEntry[j]))
@@ -490,7 +490,7 @@ package rib
 //@ ensures[others-kept] othersKept_mpls(r.r.Afts, boxed(aft.UnionUint32, label))
 //@ ensures[wf] holderWF(r)
 //@ assigns r.r.Afts.LabelEntry, contents(r.r.Afts.LabelEntry)
-//@ props C01 C12:safety
+//@ props C01 C07 C12:safety
 
 //@ pred candOnly_nhg(C *aft.Afts, k uint64) = dom(C.NextHopGroup) == add(emptyset(uint64), k) && C.NextHopGroup[k] != nil && dom(C.Ipv4Entry) == emptyset(string) && dom(C.Ipv6Entry) == emptyset(string) && dom(C.LabelEntry) == emptyset(aft.Afts_LabelEntry_Label_Union) && dom(C.NextHop) == emptyset(uint64)
 //@ pred othersKept_nhg(A *aft.Afts, k uint64) = forall j: uint64 :: j != k ==> ((j in dom(A.NextHopGroup)) <==> (j in old(dom(A.NextHopGroup)))) && (j in dom(A.NextHopGroup) ==> A.NextHopGroup[j] == old(A.NextHopGroup[j]))
@@ -511,7 +511,7 @@ package rib
 //@ ensures[others-kept] othersKept_nhg(r.r.Afts, ID)
 //@ ensures[wf] holderWF(r)
 //@ assigns r.r.Afts.NextHopGroup, contents(r.r.Afts.NextHopGroup)
-//@ props C01 C12:safety
+//@ props C01 C07 C12:safety
 
 //@ pred candOnly_nh(C *aft.Afts, k uint64) = dom(C.NextHop) == add(emptyset(uint64), k) && C.NextHop[k] != nil && dom(C.Ipv4Entry) == emptyset(string) && dom(C.Ipv6Entry) == emptyset(string) && dom(C.LabelEntry) == emptyset(aft.Afts_LabelEntry_Label_Union) && dom(C.NextHopGroup) == emptyset(uint64)
 //@ pred othersKept_nh(A *aft.Afts, k uint64) = forall j: uint64 :: j != k ==> ((j in dom(A.NextHop)) <==> (j in old(dom(A.NextHop)))) && (j in dom(A.NextHop) ==> A.NextHop[j] == old(A.NextHop[j]))
@@ -527,7 +527,7 @@ package rib
 //@ ensures[others-kept] othersKept_nh(r.r.Afts, index)
 //@ ensures[wf] holderWF(r)
 //@ assigns r.r.Afts.NextHop, contents(r.r.Afts.NextHop)
-//@ props C01 C12:safety
+//@ props C01 C07 C12:safety
 
 // ---- generated: candidate construction, Add/Delete per table ----
 //@ ghostvar hookCount Int
@@ -728,7 +728,7 @@ package rib
 //@   && hookCount == old(hookCount) + ite(old(r.postChangeHook) != nil, 1, 0)
 //@ ensures[wf] holderWF(r)
 //@ assigns r.r.Afts.Ipv4Entry[prefix], hookCount
-//@ props C08 C16 C12:safety
+//@ props C08 C03 C16 C12:safety
 
 //@ unit RIBHolder.locklessDeleteIPv6
 //@ requires holderWF(r) && unixTS != nil
@@ -737,7 +737,7 @@ package rib
 //@   && hookCount == old(hookCount) + ite(old(r.postChangeHook) != nil, 1, 0)
 //@ ensures[wf] holderWF(r)
 //@ assigns r.r.Afts.Ipv6Entry[prefix], hookCount
-//@ props C08 C16 C12:safety
+//@ props C08 C03 C16 C12:safety
 
 //@ unit RIBHolder.locklessDeleteMPLS
 //@ requires holderWF(r) && unixTS != nil
@@ -746,7 +746,7 @@ package rib
 //@   && hookCount == old(hookCount) + ite(old(r.postChangeHook) != nil, 1, 0)
 //@ ensures[wf] holderWF(r)
 //@ assigns r.r.Afts.LabelEntry[label], hookCount
-//@ props C08 C16 C12:safety
+//@ props C08 C03 C16 C12:safety
 
 //@ unit RIBHolder.locklessDeleteNHG
 //@ requires holderWF(r) && unixTS != nil
@@ -755,7 +755,7 @@ package rib
 //@   && hookCount == old(hookCount) + ite(old(r.postChangeHook) != nil, 1, 0)
 //@ ensures[wf] holderWF(r)
 //@ assigns r.r.Afts.NextHopGroup[id], hookCount, contents(r.refCounts.NextHop)
-//@ props C08 C16 C12:safety
+//@ props C08 C03 C16 C12:safety
 
 //@ unit RIBHolder.locklessDeleteNH
 //@ requires holderWF(r) && unixTS != nil
@@ -764,7 +764,7 @@ package rib
 //@   && hookCount == old(hookCount) + ite(old(r.postChangeHook) != nil, 1, 0)
 //@ ensures[wf] holderWF(r)
 //@ assigns r.r.Afts.NextHop[index], hookCount
-//@ props C08 C16 C12:safety
+//@ props C08 C03 C16 C12:safety
 
 //@ unit RIBHolder.mplsExists
 //@ requires holderWF(r)
@@ -940,6 +940,7 @@ package rib
 //@ requires held(r.nrMu) == 0
 //@ ensures[ok] result0 == nil
 //@ ensures[called-iff-set] spawned == old(spawned) + ite(r.resolvedEntryHook != nil, 1, 0)
+//@ ensures[hook-gets-private-snapshot] r.resolvedEntryHook != nil ==> spawnedFn == r.resolvedEntryHook && fresh(spawnedArg0)
 //@ assigns spawned
 //@ props C16 C12:safety
 
